@@ -28,107 +28,285 @@ use flatty::portable::{be, le, Bool};
 use flatty::prelude::*;
 use flatty::{flat, FlatString, FlatVec, FlexVec};
 
+use flatty::vec::Length;
+
 const fn max2(a: usize, b: usize) -> usize {
     if a > b { a } else { b }
 }
 
-// ------------------------------------------------------------------------------------------------------------------
-// FlatVec<T, L>
-// ------------------------------------------------------------------------------------------------------------------
+/// Fixed-capacity, 8-aligned, fully symbolic backing store; harness buffers are sub-slices of symbolic length (and,
+/// for C17, symbolic start offset).  (util::sym_slice's exact-size heap object makes the re-mapping / element
+/// comparison of these harnesses 10-20x slower in CBMC; out-of-slice accesses are the business of C01/C04, here
+/// `size() <= len` is asserted explicitly.)
+#[repr(C, align(8))]
+struct Back<const W: usize>([u8; W]);
 
-/// C05 for FlatVec<T,L>.  reference: ALIGN = max(align L, align T); data at ceil(size_of L, align_of T);
-/// extent = ceil(data + n * size_of T, ALIGN)
-macro_rules! vec_c05 {
-    ($name:ident, $T:ty, $L:ty, $n:expr, $unw:expr) => {
-        #[kani::proof]
-        #[kani::unwind($unw)]
-        fn $name() {
-            type V = FlatVec<$T, $L>;
-            const N: usize = $n; // BOUNDED: buffer <= N bytes
-            const A: usize = max2(align_of::<$T>(), align_of::<$L>());
-            const ES: usize = size_of::<$T>();
-            let data = ceil_to(size_of::<$L>(), align_of::<$T>());
-            let (len, off) = any_len_off(N, A);
-            kani::assume(off == 0);
-            let b = sym_slice(len, A, off, N);
-            let v = match V::from_bytes(b) { Ok(v) => v, Err(_) => return };
-            let n = v.len();
-            let s = v.size();
-            assert!(s == ceil_to(data + n * ES, A), "C05: size() differs from the reference extent");
-            assert!(s <= len, "C05: size() exceeds the mapped bytes");
-            assert!(s % A == 0);
-            if s > len { return; }
-            let w = match V::from_bytes(&b[..s]) { Ok(w) => w, Err(_) => panic!("C05: the first size() bytes do not validate") };
-            assert!(w.len() == n, "C05: truncated value has a different length");
-            assert!(w.size() == s, "C05: truncated value has a different size()");
-            let (vs, ws) = (v.as_slice(), w.as_slice());
-            let mut i = 0;
-            while i < N {
-                if i < n { assert!(vs[i] == ws[i], "C05: truncated value has different elements"); }
-                i += 1;
+// ------------------------------------------------------------------------------------------------------------------
+// specification side: per type, the reference alignment, the reference end of used data and content equality
+// ------------------------------------------------------------------------------------------------------------------
+trait Spec: Flat {
+    /// reference alignment (C rule applied by hand to the declaration)
+    const A: usize;
+    /// reference END OF USED DATA (not rounded) of the content read through the accessors; `raw` are the bytes the
+    /// value was mapped from (needed only for the FlexVec chain, whose item offsets are not visible through accessors)
+    fn used_end(&self, raw: &[u8]) -> usize;
+    /// assert that `o` has the same content (loops are bounded by the constant `bound`)
+    fn same(&self, o: &Self, bound: usize);
+}
+
+macro_rules! sized_spec {
+    ($T:ty, $align:expr, $size:expr) => {
+        impl Spec for $T {
+            const A: usize = $align;
+            fn used_end(&self, _raw: &[u8]) -> usize { $size }
+            fn same(&self, o: &Self, _bound: usize) { assert!(*self == *o, "content differs"); }
+        }
+    };
+}
+sized_spec!(u8, 1, 1);
+sized_spec!(u16, 2, 2);
+sized_spec!(u32, 4, 4);
+sized_spec!(Bool, 1, 1);
+sized_spec!(le::U16, 1, 2);
+sized_spec!(be::U16, 1, 2);
+sized_spec!(be::U32, 1, 4);
+// C rule: a u8 @0, b u16 @2, c u32 @4, d [u64;2] @8 -> 24, align 8
+sized_spec!(SStruct, 8, 24);
+// C rule: tag u8 @0, payload union (align 4 because of D(u32)) @4, 4 bytes -> 8, align 4
+sized_spec!(SEnum, 4, 8);
+
+/// FlatVec<T,L>: length at 0, elements at ceil(size_of L, align_of T)
+impl<T: Flat + Sized + PartialEq, L: Flat + Length> Spec for FlatVec<T, L> {
+    const A: usize = max2(align_of::<T>(), align_of::<L>());
+    fn used_end(&self, _raw: &[u8]) -> usize {
+        ceil_to(size_of::<L>(), align_of::<T>()) + self.len() * size_of::<T>()
+    }
+    fn same(&self, o: &Self, bound: usize) {
+        let n = self.len();
+        assert!(o.len() == n, "content differs: vector length");
+        let (x, y) = (self.as_slice(), o.as_slice());
+        let mut i = 0;
+        while i < bound {
+            if i < n { assert!(x[i] == y[i], "content differs: vector element"); }
+            i += 1;
+        }
+    }
+}
+
+/// FlatString<L>: length at 0, UTF-8 bytes right behind it
+impl<L: Flat + Length> Spec for FlatString<L> {
+    const A: usize = align_of::<L>();
+    fn used_end(&self, _raw: &[u8]) -> usize { size_of::<L>() + self.len() }
+    fn same(&self, o: &Self, bound: usize) {
+        let n = self.len();
+        assert!(o.len() == n, "content differs: string length");
+        let (x, y) = (self.as_str().as_bytes(), o.as_str().as_bytes());
+        assert!(x.len() == n && y.len() == n);
+        let mut i = 0;
+        while i < bound {
+            if i < n { assert!(x[i] == y[i], "content differs: string byte"); }
+            i += 1;
+        }
+    }
+}
+
+/// FlexVec<T,L> (README / flex.rs diagram): chain of items [offset slot][payload]; slot width W = max(size_of L, align T);
+/// slot value 0 = end of chain, L::MAX = last item, owns the rest; otherwise distance to the next slot.
+/// End of used data: behind the zero slot's length field, or behind the used data of the open last item.
+/// `$lw`: width of the length type (1: u8, 2: le::U16); `$item_end`: used end of the item mapped on a payload.
+macro_rules! flex_spec {
+    ($T:ty, $L:ty, $lw:expr, |$p:ident| $item_end:expr) => {
+        impl Spec for FlexVec<$T, $L> {
+            const A: usize = max2(<$T as Spec>::A, align_of::<$L>());
+            fn used_end(&self, raw: &[u8]) -> usize {
+                let w = max2(size_of::<$L>(), <$T as Spec>::A);
+                let maxv: usize = if $lw == 1 { 0xff } else { 0xffff };
+                let mut pos = 0usize;
+                let mut end: Option<usize> = None;
+                let mut k = 0;
+                while k < FLEX_BOUND {
+                    if end.is_none() {
+                        let o = if $lw == 1 { raw[pos] as usize } else { u16::from_le_bytes([raw[pos], raw[pos + 1]]) as usize };
+                        if o == 0 {
+                            end = Some(pos + $lw);
+                        } else if o == maxv {
+                            let $p: &[u8] = &raw[pos + w..];
+                            end = Some(pos + w + $item_end);
+                        } else {
+                            pos += o;
+                        }
+                    }
+                    k += 1;
+                }
+                match end { Some(e) => e, None => panic!("reference walk: chain longer than the bound") }
+            }
+            fn same(&self, o: &Self, bound: usize) {
+                let mut it = self.iter();
+                let mut jt = o.iter();
+                let mut i = 0;
+                while i < bound {
+                    match (it.next(), jt.next()) {
+                        (None, None) => {}
+                        (Some(x), Some(y)) => x.same(y, bound),
+                        _ => panic!("content differs: number of items"),
+                    }
+                    i += 1;
+                }
             }
         }
     };
 }
+/// max number of chain links examined by the reference walk (every harness buffer is <= 16 bytes, links are >= 1 byte)
+const FLEX_BOUND: usize = 17;
+flex_spec!(u8, u8, 1, |p| 1);
+flex_spec!(u16, u8, 1, |p| 2);
+flex_spec!(FlatVec<u8, u8>, u8, 1, |p| 1 + p[0] as usize);
 
-/// C06 for FlatVec<T,L>: m = b[..s0] is a message (valid, size() == its length); every proper prefix is incomplete
-/// (or the same content when only padding is cut); b = m ++ arbitrary suffix is the same message.
-macro_rules! vec_c06 {
-    ($name:ident, $T:ty, $L:ty, $n:expr, $unw:expr) => {
-        #[kani::proof]
-        #[kani::unwind($unw)]
-        fn $name() {
-            type V = FlatVec<$T, $L>;
-            const N: usize = $n; // BOUNDED: message ++ suffix <= N bytes
-            const A: usize = max2(align_of::<$T>(), align_of::<$L>());
-            const ES: usize = size_of::<$T>();
-            let data = ceil_to(size_of::<$L>(), align_of::<$T>());
-            let (len, off) = any_len_off(N, A);
-            kani::assume(off == 0);
-            let b = sym_slice(len, A, off, N);
-            let s0: usize = kani::any();
-            kani::assume(s0 <= len);
-            let m = match V::from_bytes(&b[..s0]) { Ok(m) => m, Err(_) => return };
-            kani::assume(m.size() == s0);
-            let n = m.len();
-            let ms = m.as_slice();
-            // proper prefix
-            let k: usize = kani::any();
-            kani::assume(k < s0);
-            match V::from_bytes(&b[..k]) {
-                Err(e) => assert!(e.kind == ErrorKind::InsufficientSize, "C06: a prefix is rejected with a content error"),
-                Ok(p) => {
-                    assert!(k >= data + n * ES, "C06: a prefix missing more than padding is accepted");
-                    assert!(p.len() == n, "C06: a prefix is accepted as a different message");
-                    let ps = p.as_slice();
-                    let mut i = 0;
-                    while i < N {
-                        if i < n { assert!(ps[i] == ms[i], "C06: a prefix is accepted as a different message"); }
-                        i += 1;
-                    }
-                }
+/// UStruct (C rule): a u8 @0, b u16 @2, c FlatVec<u8,u16> @4 (length @4, elements @6); align 2
+impl Spec for UStruct {
+    const A: usize = 2;
+    fn used_end(&self, _raw: &[u8]) -> usize { 6 + self.c.len() }
+    fn same(&self, o: &Self, bound: usize) {
+        assert!(self.a == o.a && self.b == o.b, "content differs: sized fields");
+        self.c.same(&o.c, bound);
+    }
+}
+/// UPad (C rule): a u64 @0, v FlatVec<u8,u16> @8 (length @8, elements @10); align 8 -> up to 7 bytes of trailing padding
+impl Spec for UPad {
+    const A: usize = 8;
+    fn used_end(&self, _raw: &[u8]) -> usize { 10 + self.v.len() }
+    fn same(&self, o: &Self, bound: usize) {
+        assert!(self.a == o.a, "content differs: sized fields");
+        self.v.same(&o.v, bound);
+    }
+}
+/// UBoolVec: n u8 @0, flags FlatVec<Bool,u8> @1 (length @1, elements @2); align 1
+impl Spec for UBoolVec {
+    const A: usize = 1;
+    fn used_end(&self, _raw: &[u8]) -> usize { 2 + self.flags.len() }
+    fn same(&self, o: &Self, bound: usize) {
+        assert!(self.n == o.n, "content differs: sized fields");
+        self.flags.same(&o.flags, bound);
+    }
+}
+/// UEnum: tag u8 @0, align 4 (u32 field), payload @4.  A: nothing.  B: u8 @4, u16 @6.  C: u32 @4, FlatVec<u8,u16> @8
+/// (length @8, elements @10)
+impl Spec for UEnum {
+    const A: usize = 4;
+    fn used_end(&self, _raw: &[u8]) -> usize {
+        match self.as_ref() {
+            UEnumRef::A => 1,
+            UEnumRef::B(..) => 8,
+            UEnumRef::C { bytes, .. } => 10 + bytes.len(),
+        }
+    }
+    fn same(&self, o: &Self, bound: usize) {
+        match (self.as_ref(), o.as_ref()) {
+            (UEnumRef::A, UEnumRef::A) => {}
+            (UEnumRef::B(x, y), UEnumRef::B(p, q)) => assert!(*x == *p && *y == *q, "content differs: variant fields"),
+            (UEnumRef::C { offset: x, bytes: y }, UEnumRef::C { offset: p, bytes: q }) => {
+                assert!(*x == *p, "content differs: variant fields");
+                y.same(q, bound);
             }
-            // extension: b = m ++ (len - s0 arbitrary bytes)
-            match V::from_bytes(b) {
-                Err(_) => panic!("C06: message followed by further bytes is rejected"),
-                Ok(x) => {
-                    assert!(x.len() == n, "C06: extension changes the content");
-                    assert!(x.size() == s0, "C06: extension changes size()");
-                    let xs = x.as_slice();
-                    let mut i = 0;
-                    while i < N {
-                        if i < n { assert!(xs[i] == ms[i], "C06: extension changes the content"); }
-                        i += 1;
-                    }
-                }
+            _ => panic!("content differs: variant"),
+        }
+    }
+}
+
+// ------------------------------------------------------------------------------------------------------------------
+// C05 / C06 bodies
+// ------------------------------------------------------------------------------------------------------------------
+
+/// C05 over ANY valid value of T mapped on ANY buffer of <= N bytes (BOUNDED by N)
+fn c05_body<T: Spec + ?Sized, const N: usize>() {
+    let back = Back::<N>(kani::any());
+    let len: usize = kani::any();
+    kani::assume(len <= N);
+    let b: &[u8] = &back.0[..len];
+    let v = match T::from_bytes(b) { Ok(v) => v, Err(_) => return };
+    let s = v.size();
+    assert!(s == ceil_to(v.used_end(b), T::A), "C05: size() differs from the reference extent");
+    assert!(s <= len, "C05: size() exceeds the mapped bytes");
+    if s > len { return; }
+    let w = match T::from_bytes(&b[..s]) { Ok(w) => w, Err(_) => panic!("C05: the first size() bytes do not validate") };
+    v.same(w, N);
+    assert!(w.size() == s, "C05: the truncated value has a different size()");
+}
+
+/// C06.  m = b[..s0] is a message: it validates and its reference extent is exactly its length (by C05 these are exactly
+/// "the first size() bytes of a valid value"; the assumption does not use size()).
+/// prefix: any k < s0;  extension: b itself is m ++ (len - s0) arbitrary bytes.   BOUNDED: len <= N.
+fn c06_body<T: Spec + ?Sized, const N: usize>(prefix: bool, extension: bool) {
+    let back = Back::<N>(kani::any());
+    let len: usize = kani::any();
+    kani::assume(len <= N);
+    let b: &[u8] = &back.0[..len];
+    let s0: usize = kani::any();
+    kani::assume(s0 <= len);
+    let m = match T::from_bytes(&b[..s0]) { Ok(m) => m, Err(_) => return };
+    let end = m.used_end(&b[..s0]);
+    kani::assume(ceil_to(end, T::A) == s0);
+    if prefix {
+        let k: usize = kani::any();
+        kani::assume(k < s0);
+        match T::from_bytes(&b[..k]) {
+            Err(e) => assert!(e.kind == ErrorKind::InsufficientSize, "C06: a prefix is rejected with a content error"),
+            Ok(p) => {
+                assert!(k >= end, "C06: a prefix that misses more than trailing padding is accepted");
+                m.same(p, N);
             }
         }
+    }
+    if extension {
+        match T::from_bytes(b) {
+            Err(_) => panic!("C06: a message followed by further bytes is rejected"),
+            Ok(x) => {
+                m.same(x, N);
+                assert!(x.size() == s0, "C06: further bytes change size()");
+            }
+        }
+    }
+}
+
+macro_rules! c05 {
+    ($name:ident, $T:ty, $n:expr, $unw:expr) => {
+        #[kani::proof]
+        #[kani::unwind($unw)]
+        fn $name() { c05_body::<$T, $n>() }
+    };
+}
+macro_rules! c06 {
+    ($name:ident, $T:ty, $n:expr, $unw:expr, $pre:expr, $ext:expr) => {
+        #[kani::proof]
+        #[kani::unwind($unw)]
+        fn $name() { c06_body::<$T, $n>($pre, $ext) }
     };
 }
 
-vec_c05!(c05_vec_u8_u16, u8, u16, 10, 12);
-vec_c05!(c05_vec_u8_u32, u8, u32, 12, 14);
-vec_c05!(c05_vec_u32_u8, u32, u8, 16, 18);
-vec_c06!(c06_vec_u8_u16, u8, u16, 10, 12);
-vec_c06!(c06_vec_u8_u32, u8, u32, 12, 14);
-vec_c06!(c06_vec_u32_u8, u32, u8, 16, 18);
+c05!(c05_vec_u8_u16, FlatVec<u8, u16>, 10, 12);
+c05!(c05_vec_u8_u32, FlatVec<u8, u32>, 12, 14);
+c05!(c05_vec_u32_u8, FlatVec<u32, u8>, 12, 14);
+c05!(c05_string_u16, FlatString<u16>, 6, 8);
+c05!(c05_flex_u8_u8, FlexVec<u8, u8>, 6, 19);
+c05!(c05_flex_u16_u8, FlexVec<u16, u8>, 8, 19);
+c05!(c05_flex_vec_u8, FlexVec<FlatVec<u8, u8>, u8>, 6, 19);
+c05!(c05_ustruct, UStruct, 12, 14);
+c05!(c05_upad, UPad, 24, 26);
+c05!(c05_uenum, UEnum, 16, 18);
+c05!(c05_uboolvec, UBoolVec, 6, 8);
+c05!(c05_sstruct, SStruct, 26, 28);
+c05!(c05_senum, SEnum, 10, 12);
+
+c06!(c06_vec_u8_u16, FlatVec<u8, u16>, 10, 12, true, true);
+c06!(c06_vec_u8_u32, FlatVec<u8, u32>, 12, 14, true, true);
+c06!(c06_vec_u32_u8, FlatVec<u32, u8>, 12, 14, true, true);
+c06!(c06_string_u16, FlatString<u16>, 6, 8, true, true);
+c06!(c06_flex_u8_u8, FlexVec<u8, u8>, 6, 19, true, true);
+c06!(c06_flex_u16_u8, FlexVec<u16, u8>, 8, 19, true, true);
+c06!(c06_flex_vec_u8, FlexVec<FlatVec<u8, u8>, u8>, 6, 19, true, true);
+c06!(c06_ustruct, UStruct, 12, 14, true, true);
+c06!(c06_upad, UPad, 24, 26, true, true);
+c06!(c06_uenum, UEnum, 16, 18, true, true);
+c06!(c06_uboolvec, UBoolVec, 6, 8, true, true);
+c06!(c06_sstruct, SStruct, 26, 28, true, true);
+c06!(c06_senum, SEnum, 10, 12, true, true);
